@@ -137,3 +137,23 @@ Definition run_qreach_cases (tol : Q) (cs : list qreach_case) : list nat :=
     | Ok r => negb (list_eqb (qclose tol) r (snd (fst c)))
     | _ => true
     end) cs.
+
+(** * Monotonicity of the binary64 run (observed, not proved): every sweep's vector dominates the previous
+    one and stays within [0,1]. This is the property the exact-rational theorems prove for instance Q. *)
+Fixpoint trace_monotone {T} (K : ops T) (n : nat) (srf : list nat) (sl : list (node (T:=T))) : bool :=
+  match n with
+  | O => true
+  | S n' =>
+    let sl' := fst (sweep_reach K srf sl) in
+    forallb (fun ab => negb (ltb K (reach (T:=T) (snd ab)) (reach (T:=T) (fst ab))) &&
+                        negb (ltb K (one K) (reach (T:=T) (snd ab))) &&
+                        negb (ltb K (reach (T:=T) (snd ab)) (zero K))) (combine sl sl')
+    && trace_monotone K n' srf sl'
+  end.
+Definition run_monotone_cases (cs : list (game (T:=float) * nat)) : list nat :=
+  idx_where (fun c =>
+    match check_game fops (fst c), init_states fops (fst c),
+          reverse_dfs (map (map (dst (T:=float))) (g_trans (fst c))) (g_finals (fst c)) with
+    | Ok _, Ok sl0, Ok srf => negb (trace_monotone fops (snd c) srf sl0)
+    | _, _, _ => true
+    end) cs.
